@@ -131,11 +131,11 @@ func filterReason(m *meta, o ropt) string {
 func (w *world) resolve(http bool) ropt {
 	o := ropt{c: &w.c.Opt}
 	if w.c.Opt.Start != nil {
-		t := w.t0.Add(time.Duration(*w.c.Opt.Start) * time.Second)
+		t := w.t0.Add(time.Duration(*w.c.Opt.Start)*time.Second + time.Duration(w.c.Opt.StartNs))
 		o.start = &t
 	}
 	if w.c.Opt.Limit != nil {
-		t := w.t0.Add(time.Duration(*w.c.Opt.Limit) * time.Second)
+		t := w.t0.Add(time.Duration(*w.c.Opt.Limit)*time.Second + time.Duration(w.c.Opt.LimitNs))
 		o.limit = &t
 	}
 	if http {
@@ -226,6 +226,9 @@ func (w *world) classes(v *harness.Verdict, chain, filter string) {
 		if w.c.Leaf.NBOff > 0 {
 			v.Class("leaf:inverted-validity")
 		}
+		if k := w.c.Leaf.KUMode; (k == 1 || k == 2) && !w.c.Leaf.CA {
+			v.Class("leaf:keyCertSign-without-ca")
+		}
 		if w.c.Leaf.Bulk > 0 {
 			v.Class(fmt.Sprintf("leaf:bulk-%dk", w.c.Leaf.Bulk/1000))
 		}
@@ -233,9 +236,15 @@ func (w *world) classes(v *harness.Verdict, chain, filter string) {
 	o := w.c.Opt
 	if o.Start != nil {
 		v.Class(fmt.Sprintf("opt:start%+d", clampOff(*o.Start)))
+		if o.StartNs != 0 {
+			v.Class("opt:start-subsecond")
+		}
 	}
 	if o.Limit != nil {
 		v.Class(fmt.Sprintf("opt:limit%+d", clampOff(*o.Limit)))
+		if o.LimitNs != 0 {
+			v.Class("opt:limit-subsecond")
+		}
 	}
 	if o.RejectExpired {
 		v.Class("opt:reject-expired")
